@@ -172,10 +172,17 @@ def execute(case: dict[str, Any], abort_at: tuple[int, str] | None, abort_call: 
         inner_cfg = make_config(case, [False, True], 2)
         outer_cfg = make_config(case, [True, False], budget if case["variant"] == "budget" else 3)
 
+        inner_extra = None
+        if scenario == "nested-two-steps":  # the plan function runs a second step without looking at plan.aborted
+            inner_extra = inner.add_step("evaluator")
+            out["step_plan"][inner_extra] = "inner"
+
         def inner_fn(plan: Plan, variables: np.ndarray) -> Any:  # noqa: ANN401
             plan.set(inner_tracker, "results", None)
             code = plan.run_step(inner_step, config=inner_cfg, variables=variables)
             out["codes"].append((inner_step, code))
+            if inner_extra is not None:
+                out["codes"].append((inner_extra, plan.run_step(inner_extra, config=inner_cfg, variables=variables)))
             return plan.get(inner_tracker, "results")
 
         inner.add_function(inner_fn)
@@ -478,7 +485,7 @@ def hypothesis_shard(item: dict[str, Any]) -> Collector:
 
     @st.composite
     def cases(draw: Any) -> dict[str, Any]:  # noqa: ANN401
-        case = default_case(draw(st.sampled_from(["optimizer", "evaluator", "optimizer+evaluator", "evaluator+optimizer", "nested", "nested-reused", "nested-own-context", "basic-optimizer"])),
+        case = default_case(draw(st.sampled_from(["optimizer", "evaluator", "optimizer+evaluator", "evaluator+optimizer", "nested", "nested-reused", "nested-own-context", "nested-two-steps", "basic-optimizer"])),
                             draw(st.sampled_from(["plain", "failures", "budget"])), draw(st.sampled_from(["slsqp", "nelder-mead"])))
         case["speculative"] = draw(st.booleans())
         case["x0"] = [draw(st.sampled_from([-1.0, 0.0, 0.4, 1.5])), draw(st.sampled_from([-0.3, 0.8]))]
@@ -499,7 +506,7 @@ def hypothesis_shard(item: dict[str, Any]) -> Collector:
 
 def shards(tier: str, seed: int) -> list[dict[str, Any]]:
     items: list[dict[str, Any]] = []
-    for scenario in ("optimizer", "evaluator", "optimizer+evaluator", "evaluator+optimizer", "nested", "nested-reused", "nested-own-context", "basic-optimizer"):
+    for scenario in ("optimizer", "evaluator", "optimizer+evaluator", "evaluator+optimizer", "nested", "nested-reused", "nested-own-context", "nested-two-steps", "basic-optimizer"):
         for variant in ("plain", "failures", "budget"):
             for method in ("slsqp", "nelder-mead"):
                 for spec in ((False, True) if method == "slsqp" and tier != "quick" else (False,)):
